@@ -112,6 +112,8 @@ STRUCTURED = [
     [{"tags": [f"t{i}" for i in range(14)]}, {"tags": ["t14", "zz"]}],
     [{"s": "a"}, {"s": "b"}, {"s": "a,b"}],
     [{"s": "b,a"}, {"s": "a"}, {"s": "b"}],
+    [{"s": ["a,b"]}, {"s": ["a", "b"]}, {"s": 1}],
+    [{"s": ["a", "b"]}, {"s": ["a,b"]}, {"s": None}],
     [{"s": "..."}, {"s": "x" * 25}],
     [{"v": [1, "1", None]}, {"v": [2.5]}, {"v": []}],
     [{"m": {"k1": {"z": 1}}, "n": {"k1": {"z": "s"}, "k2": None}}],
